@@ -59,6 +59,17 @@ func FileHashFromHasher(path string, hasher hashio.Hasher) FileHash {
 
 type FileHashes []FileHash
 
+// Files listed in a .dsc or .changes live next to it, so a listed name is a
+// single path element. Copy, Move and Remove refuse anything else rather than
+// reach outside the control file's directory.
+func checkListedFilename(name string) error {
+	if name == "" || name == "." || name == ".." ||
+		strings.ContainsRune(name, '/') || strings.ContainsRune(name, filepath.Separator) {
+		return fmt.Errorf("Listed file name '%s' is not a plain file name", name)
+	}
+	return nil
+}
+
 type verifier struct {
 	h      hash.Hash
 	want   []byte
